@@ -397,7 +397,10 @@ def run(prog, ctx):
         for n in ast.walk(loop):
             if isinstance(n, ast.Break):
                 g = [gg for (gg, gn) in R.dominating_guards(gp, cfg_of(gp).node_containing(n), tmg) if gn.kind == "test"]
-                if not any(gg[0] == "cmp" and gg[1] == "Eq" and ("c", "0") in (gg[2], gg[3]) for gg in g):
+                ln_ = ("call", ("n", "len"), (("n", pts),), ())
+                empty_forms = (("cmp", "Eq", ln_, ("c", "0")), ("cmp", "Eq", ("c", "0"), ln_), ("not", ("n", pts)), ("cmp", "LtE", ln_, ("c", "0")),
+                               ("cmp", "Lt", ln_, ("c", "1")), ("not", ln_))
+                if not any(gg in empty_forms or (gg[0] == "cmp" and gg[1] == "Eq" and ("c", "0") in (gg[2], gg[3])) for gg in g):
                     problems.append("the child loop is left early although points remain")
     # leaf case returns the area with all points it was given
     leaf = [r for r in R.return_paths(gp)[0] if tmg.term(r.ast.value) == ("list", ("tuple", ("n", gp.params[1]), ("n", pts)))]
